@@ -10,8 +10,8 @@ from harness.props import c01
 
 ID = 'C04'
 MODULE = 'Gpv.Props.C04'
-MODULES = ['Gpv.Props.C04', 'Gpv.Props.C03']
-THEOREMS = core.theorems('C04') + ['Gpv.C03.no_later_output']
+MODULES = ['Gpv.Props.C04', 'Gpv.Props.C03', 'Gpv.Props.C13Stage']
+THEOREMS = core.theorems('C04', 'C13Stage') + ['Gpv.C03.no_later_output']
 RULE = ('stop point k in 0..n outputs x way of stopping (exhaust, close, del+gc, throw, function failure, source failure) x config; '
         'pool creation/termination is logged from outside the source (module attribute Pool wrapped), children of the process are '
         'scanned in /proc after each stop (survivors, zombies), a second pipeline is then run in the same process; plus child '
